@@ -635,6 +635,12 @@ fn directed(t: &mut Trace) {
     s.admin(t, 1, &[A(3), S(0), A(0)], &Some(vec![]), &[]);
     s.admin(t, 2, &[A(1), S(0), A(0)], &Some(vec![]), &[]);
     s.admin(t, 3, &[A(4), U(5000)], &Some(vec![]), &[]);
+    // the remaining admin-only entry points, called by anybody / nobody without a payload
+    s.admin(t, 5, &[S(3), S(0)], &None, &[]);
+    s.admin(t, 5, &[S(3), S(0)], &Some(vec![]), &[Tok::Call(3)]);
+    s.admin(t, 4, &[], &Some(vec![]), &[]);
+    s.admin(t, 4, &[], &None, &[Tok::Call(3)]);
+    s.admin(t, 4, &[], &None, &[]);
     s.check(t, &[], &[Ctx::Def(upd)], &[]);
     s.check(t, &[], &[Ctx::Def(upd), Ctx::Def(g)], &[]);
     s.check(t, &[], &[], &[]);
